@@ -28,13 +28,18 @@ def all_files() -> list[str]:
     return sorted(f for f in os.listdir(d) if f.endswith(".test") and (f.startswith(("irbuild-", "run-", "lowering-", "opt-")) or f in ("refcount.test", "exceptions.test", "exceptions-freq.test", "alwaysdefined.test", "analysis.test")))
 
 
-def work(fn_: str) -> dict:
+def work(fn_: Any) -> dict:
     from mypyc.ir.pprint import format_func
 
     from vf import mypycir, ownership
 
+    if isinstance(fn_, tuple):  # generated shapes: (name, program)
+        cases = [("generated", fn_[0], fn_[1])]
+        fn_ = "generated:" + fn_[0]
+    else:
+        cases = list(mypycir.test_cases([fn_]))
     out = {"file": fn_, "cases": 0, "buildfail": 0, "functions": 0, "clean": 0, "obligations": 0, "discharged": 0, "queries": 0, "solver_s": 0.0, "findings": [], "skipped": 0, "loop_cuts": 0}
-    for _, name, prog in mypycir.test_cases([fn_]):
+    for _, name, prog in cases:
         out["cases"] += 1
         try:
             mod = mypycir.build_module_ir(prog)
@@ -79,8 +84,12 @@ def main(args: Any) -> int:
         "handing over / returning the error value transfers no reference; `unborrow` of components consumes the aggregate's reference (the refcount pass strips the keep_alive that said so); a dec_ref of a borrowed load_mem followed by set_mem of the same slot releases the slot's reference",
     ]
     rep.outside += ["dynamic half: live-object counts of real executions, interpreter crashes", "use of a value after its last reference was released (needs liveness of borrowed values)", "always-defined attribute analysis"]
+    from vf import c06_corpus
+
+    gen = c06_corpus.programs(rep.seed, args.tier)
+    rep.bounds.append(f"plus {len(gen)} generated modules of ownership-relevant shapes (vf/c06_corpus.py: repeated values in displays of length 1..12, one-branch locals around raising calls, reassigned arguments, loops, try/except/finally; random shapes seeded by VERIF_SEED)")
     with mp.get_context("fork").Pool(14) as pool:
-        results = pool.map(work, files)
+        results = pool.map(work, list(files) + gen)
     tot = {k: 0 for k in ("cases", "buildfail", "functions", "clean", "obligations", "discharged", "queries", "skipped", "loop_cuts")}
     solver_s = 0.0
     findings = []
